@@ -21,6 +21,13 @@ package main
 // exactly what its own derivation path prescribes.  (An error path that puts a pooled buffer back twice makes
 // two later derivations share one context buffer: a sibling's fields under another logger's name.)
 //
+// LEVEL STATE.  The LevelEnabler of a leaf or of a zap.IncreaseLevel filter can be a zap.AtomicLevel shared by
+// several cores of the composition (and by every core derived from them); the program changes it with SetLevel
+// between any two operations -- op (3 a level) -- in both directions, also into states in which a filter enables
+// levels the core it wraps rejects (NewIncreaseLevelCore refuses such a pair at construction; a later SetLevel
+// produces it freely).  Calls are made at Debug .. Error.  A derivation made in ANY level state must carry its own
+// path: entries at disabled levels are not delivered, entries at enabled levels carry exactly the path's context.
+//
 // Fields are static scripts (enc_gen.go) or MUTABLE marshalers reading a world variable that the program
 // changes between operations, so that the moment of evaluation (With: at derivation; WithLazy: at first use;
 // observer: when the recorded entry is rendered) is visible in the output.
@@ -82,9 +89,76 @@ const (
 
 type c07comp struct {
 	kind int
-	thr  bool // filter: true = WarnLevel
+	thr  bool     // filter: true = WarnLevel
+	lref *c07lref // filter: its level, when not given by thr; leaf: its LevelEnabler, when not DebugLevel
 	fs   c07fields
 	kids []*c07comp
+}
+
+// a LevelEnabler: a static zapcore.Level, or AtomicLevel number atom of the case
+type c07lref struct {
+	atom int // -1: static
+	lvl  int
+}
+
+func (l *c07lref) sx() SX {
+	if l.atom >= 0 {
+		return L(I(l.atom))
+	}
+	return I(l.lvl)
+}
+
+func (l *c07lref) value(env []int) int {
+	if l.atom >= 0 {
+		return env[l.atom]
+	}
+	return l.lvl
+}
+
+func (e *c07env) enabler(l *c07lref) zapcore.LevelEnabler {
+	if l.atom >= 0 {
+		return e.atoms[l.atom]
+	}
+	return zapcore.Level(l.lvl)
+}
+
+// the filter's level reference
+func (c *c07comp) flev() *c07lref {
+	if c.lref != nil {
+		return c.lref
+	}
+	if c.thr {
+		return &c07lref{-1, 1}
+	}
+	return &c07lref{-1, 0}
+}
+
+// the lowest level the subtree enables in the level state env (Core.Enabled is monotone in the level for every
+// core generated here); 99: none
+func (c *c07comp) minLv(env []int) int {
+	switch c.kind {
+	case ckJSON, ckConsole, ckObs:
+		if c.lref != nil {
+			return c.lref.value(env)
+		}
+		return -1
+	case ckTee:
+		m := 99
+		for _, k := range c.kids {
+			if v := k.minLv(env); v < m {
+				m = v
+			}
+		}
+		return m
+	case ckFilt:
+		m := c.kids[0].minLv(env)
+		if v := c.flev().value(env); v > m {
+			m = v
+		}
+		return m
+	default:
+		return c.kids[0].minLv(env)
+	}
 }
 
 type c07fields struct {
@@ -97,6 +171,9 @@ func (f c07fields) sx() SX { return L(f.xs...) }
 func (c *c07comp) sx() SX {
 	switch c.kind {
 	case ckJSON, ckConsole, ckObs:
+		if c.lref != nil {
+			return L(I(8), c.lref.sx(), L(I(c.kind)))
+		}
 		return L(I(c.kind))
 	case ckTee:
 		ks := make([]SX, len(c.kids))
@@ -109,7 +186,7 @@ func (c *c07comp) sx() SX {
 	case ckHook:
 		return L(I(5), c.kids[0].sx())
 	case ckFilt:
-		return L(I(6), Bool(c.thr), c.kids[0].sx())
+		return L(I(6), c.flev().sx(), c.kids[0].sx())
 	default:
 		return L(I(7), c.fs.sx(), c.kids[0].sx())
 	}
@@ -120,13 +197,19 @@ func (c *c07comp) class() string {
 	var walk func(*c07comp)
 	walk = func(x *c07comp) {
 		seen[x.kind] = true
+		if x.lref != nil {
+			seen[8] = true // a LevelEnabler of its own (leaf) / not one of the two fixed levels (filter)
+			if x.lref.atom >= 0 {
+				seen[9] = true
+			}
+		}
 		for _, k := range x.kids {
 			walk(k)
 		}
 	}
 	walk(c)
 	s := ""
-	for i, ch := range "JCOTSHFL" {
+	for i, ch := range "JCOTSHFLEA" {
 		if seen[i] {
 			s += string(ch)
 		}
@@ -199,11 +282,13 @@ func (s *c07sink) Write(p []byte) (int, error) {
 func (s *c07sink) Sync() error { return nil }
 
 type c07env struct {
-	world int64
-	aux   []SX
-	sinks []*c07sink
-	ecfg  zapcore.EncoderConfig
-	out   *c07outside
+	world  int64
+	aux    []SX
+	sinks  []*c07sink
+	ecfg   zapcore.EncoderConfig
+	out    *c07outside
+	initLv []int             // the values the AtomicLevels of the case are created with
+	atoms  []zap.AtomicLevel // created by c07run before the composition is built
 }
 
 // zap reports a failed write on the logger's ErrorOutput (default: stderr)
@@ -266,13 +351,13 @@ func (e *c07env) build(c *c07comp) zapcore.Core {
 	case ckJSON:
 		s := &c07sink{kind: ckJSON}
 		e.sinks = append(e.sinks, s)
-		return zapcore.NewCore(zapcore.NewJSONEncoder(e.ecfg), s, zapcore.DebugLevel)
+		return zapcore.NewCore(zapcore.NewJSONEncoder(e.ecfg), s, e.leafLevel(c))
 	case ckConsole:
 		s := &c07sink{kind: ckConsole}
 		e.sinks = append(e.sinks, s)
-		return zapcore.NewCore(zapcore.NewConsoleEncoder(e.ecfg), s, zapcore.DebugLevel)
+		return zapcore.NewCore(zapcore.NewConsoleEncoder(e.ecfg), s, e.leafLevel(c))
 	case ckObs:
-		core, logs := observer.New(zapcore.DebugLevel)
+		core, logs := observer.New(e.leafLevel(c))
 		e.sinks = append(e.sinks, &c07sink{kind: ckObs, logs: logs})
 		return core
 	case ckTee:
@@ -298,11 +383,7 @@ func (e *c07env) build(c *c07comp) zapcore.Core {
 		})
 	case ckFilt:
 		inner := e.build(c.kids[0])
-		lvl := zapcore.InfoLevel
-		if c.thr {
-			lvl = zapcore.WarnLevel
-		}
-		core, err := zapcore.NewIncreaseLevelCore(inner, lvl)
+		core, err := zapcore.NewIncreaseLevelCore(inner, e.enabler(c.flev()))
 		if err != nil {
 			panic("generator produced an invalid increase-level core: " + err.Error())
 		}
@@ -311,6 +392,13 @@ func (e *c07env) build(c *c07comp) zapcore.Core {
 		inner := e.build(c.kids[0])
 		return zapcore.NewLazyWith(inner, c.fs.fs)
 	}
+}
+
+func (e *c07env) leafLevel(c *c07comp) zapcore.LevelEnabler {
+	if c.lref != nil {
+		return e.enabler(c.lref)
+	}
+	return zapcore.DebugLevel
 }
 
 func (env *c07env) reset() {
@@ -425,6 +513,21 @@ type c07op struct {
 	viaChk bool      // plain logger: Check(...).Write(...) instead of Info/Warn
 	fails  []c07fail // logging call: the sinks whose Write fails for this call, and how
 	ext    *c07ext   // not an operation of the tree: something loggers outside it do at this point
+	hasLv  bool      // logging call: made at level lv (Debug -1 .. Error 2) instead of Info / Warn (hi)
+	lv     int
+	viaLog bool // Log(lvl, ...) / Logw(lvl, ...) instead of the level's own method
+	set    bool // not an operation on a logger: AtomicLevel number atom .SetLevel(lv)
+	atom   int
+}
+
+func (o *c07op) level() int {
+	if o.hasLv {
+		return o.lv
+	}
+	if o.hi {
+		return 1
+	}
+	return 0
 }
 
 type c07node struct {
@@ -459,12 +562,15 @@ func (o *c07op) sx(sugared bool) SX {
 	if o.ext != nil {
 		return o.ext.sx()
 	}
+	if o.set {
+		return L(I(3), I(o.atom), I(o.lv))
+	}
 	if o.log {
 		fl := make([]SX, len(o.fails))
 		for i, f := range o.fails {
 			fl[i] = I(f.sink)
 		}
-		return L(I(1), I(o.node), Bool(o.hi), B(o.msg), o.fs.sx(), Z(o.w), sg, L(fl...))
+		return L(I(1), I(o.node), I(o.level()), B(o.msg), o.fs.sx(), Z(o.w), sg, L(fl...))
 	}
 	var st SX
 	switch o.step {
@@ -487,6 +593,10 @@ func (o *c07op) sx(sugared bool) SX {
 // runs a program on the real zap; returns the per-log observations
 func c07run(comp *c07comp, env *c07env, ops []*c07op) (opx []SX, obs []SX, end []SX) {
 	var ws []int64
+	env.atoms = nil
+	for _, v := range env.initLv {
+		env.atoms = append(env.atoms, zap.NewAtomicLevelAt(zapcore.Level(v)))
+	}
 	core := env.build(comp)
 	nodes := []c07node{{plain: zap.New(core, zap.ErrorOutput(&c07errOut{}))}}
 	for _, o := range ops {
@@ -494,6 +604,11 @@ func c07run(comp *c07comp, env *c07env, ops []*c07op) (opx []SX, obs []SX, end [
 		if o.ext != nil {
 			opx = append(opx, o.sx(false))
 			env.outside(o.ext)
+			continue
+		}
+		if o.set {
+			opx = append(opx, o.sx(false))
+			env.atoms[o.atom].SetLevel(zapcore.Level(o.lv))
 			continue
 		}
 		n := nodes[o.node]
@@ -549,10 +664,7 @@ func c07run(comp *c07comp, env *c07env, ops []*c07op) (opx []SX, obs []SX, end [
 			continue
 		}
 		env.reset()
-		lvl := zapcore.InfoLevel
-		if o.hi {
-			lvl = zapcore.WarnLevel
-		}
+		lvl := zapcore.Level(o.level())
 		fs := c07own(o.fs.fs)
 		var args []interface{}
 		if sugared {
@@ -562,18 +674,36 @@ func c07run(comp *c07comp, env *c07env, ops []*c07op) (opx []SX, obs []SX, end [
 			env.sinks[f.sink].fail = f.mode
 		}
 		switch {
-		case sugared && o.hi:
-			n.sugar.Warnw(string(o.msg), args...)
+		case sugared && o.viaLog:
+			n.sugar.Logw(lvl, string(o.msg), args...)
 		case sugared:
-			n.sugar.Infow(string(o.msg), args...)
+			switch lvl {
+			case zapcore.DebugLevel:
+				n.sugar.Debugw(string(o.msg), args...)
+			case zapcore.InfoLevel:
+				n.sugar.Infow(string(o.msg), args...)
+			case zapcore.WarnLevel:
+				n.sugar.Warnw(string(o.msg), args...)
+			default:
+				n.sugar.Errorw(string(o.msg), args...)
+			}
 		case o.viaChk:
 			if ce := n.plain.Check(lvl, string(o.msg)); ce != nil {
 				ce.Write(fs...)
 			}
-		case o.hi:
-			n.plain.Warn(string(o.msg), fs...)
+		case o.viaLog:
+			n.plain.Log(lvl, string(o.msg), fs...)
 		default:
-			n.plain.Info(string(o.msg), fs...)
+			switch lvl {
+			case zapcore.DebugLevel:
+				n.plain.Debug(string(o.msg), fs...)
+			case zapcore.InfoLevel:
+				n.plain.Info(string(o.msg), fs...)
+			case zapcore.WarnLevel:
+				n.plain.Warn(string(o.msg), fs...)
+			default:
+				n.plain.Error(string(o.msg), fs...)
+			}
 		}
 		for _, f := range o.fails {
 			env.sinks[f.sink].fail = 0
@@ -785,6 +915,7 @@ type c07prog struct {
 	parent  []int
 	ctx     []int // per node: number of context items on its path
 	w       int64
+	initLv  []int // the values the AtomicLevels of the composition are created with
 }
 
 func (p *c07prog) tick(r *RNG) int64 {
@@ -1229,6 +1360,7 @@ func (g *c07gen) emit(c *Ctx, comp *c07comp, p *c07prog, class string) {
 			}
 		}()
 		c07cleanPool()
+		g.env.initLv = p.initLv
 		opx, obs, end = c07run(comp, g.env, p.ops)
 	}()
 	if panicked {
@@ -1238,7 +1370,11 @@ func (g *c07gen) emit(c *Ctx, comp *c07comp, p *c07prog, class string) {
 			_ = i
 			xs = append(xs, o.sx(false))
 		}
-		c.Viol("a panic escaped a logger derivation or a logging call: "+pmsg, L(comp.sx(), L(xs...)))
+		lv := make([]SX, len(p.initLv))
+		for i, v := range p.initLv {
+			lv[i] = I(v)
+		}
+		c.Viol("a panic escaped a logger derivation or a logging call: "+pmsg, L(comp.sx(), L(xs...), I(0), B(nil), L(lv...)))
 		return
 	}
 	// statistics / non-triviality
@@ -1263,8 +1399,23 @@ func (g *c07gen) emit(c *Ctx, comp *c07comp, p *c07prog, class string) {
 	if maxKids >= 2 && ctxSteps >= 3 && logs >= 2 {
 		nt = "1"
 	}
-	c.Emit(L(comp.sx(), L(opx...)), L(L(obs...), L(end...)), map[string]string{
-		"nt": nt, "class": class + ":" + comp.class(), "nodes": fmt.Sprint(len(p.sugared)), "logs": fmt.Sprint(logs),
+	input := L(comp.sx(), L(opx...))
+	sets := 0
+	if len(p.initLv) > 0 {
+		lv := make([]SX, len(p.initLv))
+		for i, v := range p.initLv {
+			lv[i] = I(v)
+		}
+		input = L(comp.sx(), L(opx...), I(0), B(nil), L(lv...))
+		for _, o := range p.ops {
+			if o.set {
+				sets++
+			}
+		}
+	}
+	c.Emit(input, L(L(obs...), L(end...)), map[string]string{
+		"sets": fmt.Sprint(sets),
+		"nt":   nt, "class": class + ":" + comp.class(), "nodes": fmt.Sprint(len(p.sugared)), "logs": fmt.Sprint(logs),
 		"mut": fmt.Sprint(g.nmut), "ns": fmt.Sprint(g.nns), "lazy": fmt.Sprint(g.nlazy), "sibs": fmt.Sprint(maxKids),
 		"faults": fmt.Sprint(g.nfault)})
 }
@@ -1741,9 +1892,358 @@ func (g *c07gen) emitSlog(c *Ctx, comp *c07comp, name string, ops []*c07sop) {
 	c.Emit(input, L(L(obs...), L(end...)), map[string]string{"nt": nt, "class": "slog:" + comp.class(), "groups": fmt.Sprint(groups)})
 }
 
+// ---------- level state ----------
+// Compositions whose LevelEnablers are dynamic: leaves built with an AtomicLevel (shared between leaves) or a
+// static level of their own, zap.IncreaseLevel filters whose level is an AtomicLevel (possibly the one of a
+// leaf below or beside it) or any static level.  nAtoms AtomicLevels; env = their values at construction, at
+// which every NewIncreaseLevelCore pair must be valid (a filter that would not be gets the lowest static level
+// that is).
+func (g *c07gen) levelComp(depth int, nAtoms int, env []int) *c07comp {
+	r := g.r
+	ref := func(lo int) *c07lref {
+		if nAtoms > 0 && r.Chance(65) {
+			return &c07lref{atom: r.Intn(nAtoms)}
+		}
+		return &c07lref{atom: -1, lvl: r.Range(lo, 1)}
+	}
+	leaf := func() *c07comp {
+		c := &c07comp{kind: []int{ckJSON, ckJSON, ckConsole, ckObs, ckObs}[r.Intn(5)]}
+		if r.Chance(70) {
+			c.lref = ref(-1)
+		}
+		return c
+	}
+	filt := func(inner *c07comp) *c07comp {
+		c := &c07comp{kind: ckFilt, lref: ref(-1), kids: []*c07comp{inner}}
+		if m := inner.minLv(env); c.lref.value(env) < m {
+			// not a valid pair now: the lowest static level that is, or a little more
+			c.lref = &c07lref{atom: -1, lvl: m + r.Intn(2)*r.Intn(2)}
+		}
+		return c
+	}
+	x := r.Intn(100)
+	if depth <= 0 || x < 22 {
+		return leaf()
+	}
+	switch {
+	case x < 38:
+		c := &c07comp{kind: ckTee}
+		for i, n := 0, r.Range(2, 3); i < n; i++ {
+			c.kids = append(c.kids, g.levelComp(depth-1, nAtoms, env))
+		}
+		return c
+	case x < 46:
+		return &c07comp{kind: ckSamp, kids: []*c07comp{g.levelComp(depth-1, nAtoms, env)}}
+	case x < 54:
+		return &c07comp{kind: ckHook, kids: []*c07comp{g.levelComp(depth-1, nAtoms, env)}}
+	case x < 90:
+		return filt(g.levelComp(depth-1, nAtoms, env))
+	default:
+		g.nlazy++
+		return &c07comp{kind: ckLazy, fs: g.fields(r.Range(0, 2), 30), kids: []*c07comp{g.levelComp(depth-1, nAtoms, env)}}
+	}
+}
+
+// does the composition hold a level filter / an AtomicLevel at all?
+func (c *c07comp) hasKind(kind int) bool {
+	if c.kind == kind {
+		return true
+	}
+	for _, k := range c.kids {
+		if k.hasKind(kind) {
+			return true
+		}
+	}
+	return false
+}
+
+type c07lvgen struct {
+	g    *c07gen
+	p    *c07prog
+	comp *c07comp
+	env  []int // current values of the AtomicLevels
+}
+
+func (lg *c07lvgen) set(a, v int) {
+	lg.env[a] = v
+	lg.p.ops = append(lg.p.ops, &c07op{set: true, atom: a, lv: v, w: lg.p.w})
+}
+
+// a random SetLevel: any AtomicLevel, up or down, mostly within Debug .. Error, now and then above every level
+// the program logs at
+func (lg *c07lvgen) randSet() {
+	r := lg.g.r
+	if len(lg.env) == 0 {
+		return
+	}
+	a := r.Intn(len(lg.env))
+	v := r.Range(-1, 2)
+	if r.Chance(8) {
+		v = r.Range(3, 5)
+	}
+	if v == lg.env[a] {
+		v = []int{1, 2, -1, 0, 1, 2, 2}[v+1]
+	}
+	lg.set(a, v)
+}
+
+// a logging call at a level the composition currently enables (mostly), or at any level
+func (lg *c07lvgen) log(node, nf int) {
+	g, r := lg.g, lg.g.r
+	g.log(lg.p, node, nf)
+	var o *c07op
+	for i := len(lg.p.ops) - 1; i >= 0; i-- {
+		if lg.p.ops[i].log {
+			o = lg.p.ops[i]
+			break
+		}
+	}
+	lv := r.Range(-1, 2)
+	if m := lg.comp.minLv(lg.env); m <= 2 && r.Chance(75) {
+		lv = r.Range(m, 2)
+	}
+	o.hasLv, o.lv = true, lv
+	if !o.viaChk && r.Chance(25) {
+		o.viaLog = true
+	}
+}
+
+// the level pattern: loggers derived in one level state, the state changed (any AtomicLevel, up or down),
+// siblings and descendants derived in the new state (With / WithLazy / Fields / Sugar().With / Named + With of a
+// namespace), everybody logging in that state and in later ones; 2-4 rounds.
+func (g *c07gen) levelProg(comp *c07comp, init []int) *c07prog {
+	r := g.r
+	p := newC07prog()
+	p.initLv = append([]int(nil), init...)
+	lg := &c07lvgen{g: g, p: p, comp: comp, env: append([]int(nil), init...)}
+	cur := 0
+	for i, d := 0, r.Intn(3); i < d; i++ {
+		cur = g.randStep(p, cur)
+	}
+	if r.Chance(30) {
+		lg.log(cur, r.Intn(2))
+	}
+	bases := []int{cur, 0}
+	ctx := func(par int) int {
+		switch x := r.Intn(20); {
+		case x < 9:
+			return g.derive(p, par, stWith, g.fields(r.Range(1, 2), 15), nil)
+		case x < 12:
+			g.nlazy++
+			return g.derive(p, par, stWithLazy, g.fields(r.Range(1, 2), 30), nil)
+		case x < 15:
+			return g.derive(p, par, stFields, g.fields(r.Range(1, 2), 15), nil)
+		case x < 18: // Named + With(Namespace, field)
+			n := g.derive(p, par, stNamed, c07fields{}, g.seg())
+			f1, x1 := g.ns([]string{"ns", "a", "k"}[r.Intn(3)])
+			f2, x2 := g.str("in", fmt.Sprintf("v%d", r.Intn(100)))
+			return g.derive(p, n, stWith, c07fields{[]zapcore.Field{f1, f2}, []SX{x1, x2}}, nil)
+		default: // through the other front end: Sugar().With / Desugar().With
+			s := g.derive(p, par, stSugar, c07fields{}, nil)
+			return g.derive(p, s, stWith, g.fields(r.Range(1, 2), 15), nil)
+		}
+	}
+	for k, rounds := 0, r.Range(2, 4); k < rounds; k++ {
+		base := bases[r.Intn(len(bases))]
+		var kids []int
+		if r.Chance(60) { // a sibling derived BEFORE the change
+			kids = append(kids, ctx(base))
+		}
+		lg.randSet()
+		if r.Chance(35) {
+			lg.randSet()
+		}
+		for i, nk := 0, r.Range(1, 3); i < nk; i++ {
+			kids = append(kids, ctx(base))
+			if r.Chance(25) {
+				lg.log(kids[len(kids)-1], r.Intn(2))
+			}
+			if r.Chance(15) {
+				lg.randSet()
+			}
+		}
+		if r.Chance(50) { // a grandchild, below a logger derived in this or in the earlier state
+			kids = append(kids, ctx(kids[r.Intn(len(kids))]))
+		}
+		for _, kid := range kids {
+			lg.log(kid, r.Intn(3))
+		}
+		lg.log(base, r.Intn(2))
+		if r.Chance(50) {
+			lg.randSet()
+			for _, kid := range kids {
+				if r.Chance(70) {
+					lg.log(kid, r.Intn(2))
+				}
+			}
+		}
+		lg.log(kids[0], 1)
+		bases = append(bases, kids[r.Intn(len(kids))])
+	}
+	return p
+}
+
+// any program of the other classes, replayed with level changes between its operations and calls at Debug .. Error
+func (g *c07gen) relevelProg(comp *c07comp, init []int, p *c07prog) *c07prog {
+	r := g.r
+	q := *p
+	q.ops = nil
+	q.initLv = append([]int(nil), init...)
+	lg := &c07lvgen{g: g, p: &q, comp: comp, env: append([]int(nil), init...)}
+	for _, o := range p.ops {
+		if r.Chance(18) {
+			q.w = o.w
+			lg.randSet()
+		}
+		if o.log {
+			lv := r.Range(-1, 2)
+			if m := comp.minLv(lg.env); m <= 2 && r.Chance(75) {
+				lv = r.Range(m, 2)
+			}
+			o.hasLv, o.lv = true, lv
+		}
+		q.ops = append(q.ops, o)
+	}
+	return &q
+}
+
+// directed level histories: x compositions in which a filter sits over a core with a dynamic level (a leaf's own
+// AtomicLevel, directly / below a sampler / a lazy core / in a tee; nested filters; a filter with an AtomicLevel
+// of its own; one AtomicLevel shared by a filter and a leaf), x one AtomicLevel moved to one value in the middle
+// of: svc = root.With(svc); before = svc.With(a=1); [SetLevel]; after = svc.With(a=2); grand =
+// after.Named(n).With(Namespace(ns), b); sugar = svc.Sugar().With(s); lazy = svc.WithLazy(k); fld =
+// svc.WithOptions(Fields(f)); deeper = before.With(j); all of them log at Error, Warn, Info; the level is put
+// back; all log again; one more child of after and of svc.
+func c07directedLevels(c *Ctx) {
+	at := func(a int) *c07lref { return &c07lref{atom: a} }
+	st := func(l int) *c07lref { return &c07lref{atom: -1, lvl: l} }
+	leafL := func(kind int, l *c07lref) *c07comp { return &c07comp{kind: kind, lref: l} }
+	filtL := func(l *c07lref, inner *c07comp) *c07comp {
+		return &c07comp{kind: ckFilt, lref: l, kids: []*c07comp{inner}}
+	}
+	lzf := c07fields{[]zapcore.Field{zap.String("l1", "l1!")}, []SX{L(I(4), Str("l1"), Str("l1!"))}}
+	type cfg struct {
+		comp *c07comp
+		init []int
+	}
+	cfgs := func() []cfg {
+		return []cfg{
+			{filtL(st(1), leafL(ckJSON, at(0))), []int{0}},
+			{filtL(st(0), leafL(ckObs, at(0))), []int{-1}},
+			{filtL(at(0), leafL(ckConsole, st(0))), []int{1}},
+			{filtL(at(1), leafL(ckJSON, at(0))), []int{-1, 0}},
+			{filtL(at(0), leafL(ckObs, at(0))), []int{0}},
+			{&c07comp{kind: ckTee, kids: []*c07comp{filtL(st(0), leafL(ckJSON, at(0))), leafL(ckObs, at(0))}}, []int{0}},
+			{filtL(st(1), &c07comp{kind: ckTee, kids: []*c07comp{leafL(ckJSON, at(0)), leafL(ckObs, st(-1))}}), []int{0}},
+			{&c07comp{kind: ckHook, kids: []*c07comp{filtL(at(1), &c07comp{kind: ckSamp, kids: []*c07comp{leafL(ckJSON, at(0))}})}}, []int{0, 0}},
+			{filtL(st(0), &c07comp{kind: ckLazy, fs: lzf, kids: []*c07comp{leafL(ckJSON, at(0))}}), []int{-1}},
+			{&c07comp{kind: ckLazy, fs: lzf, kids: []*c07comp{filtL(st(0), leafL(ckObs, at(0)))}}, []int{0}},
+			{filtL(st(0), filtL(at(1), &c07comp{kind: ckTee, kids: []*c07comp{leafL(ckJSON, at(0)), leafL(ckConsole, st(-1))}})), []int{-1, 0}},
+			{&c07comp{kind: ckSamp, kids: []*c07comp{filtL(st(0), &c07comp{kind: ckHook, kids: []*c07comp{leafL(ckConsole, at(0))}})}}, []int{0}},
+		}
+	}
+	for ci := range cfgs() {
+		nat := len(cfgs()[ci].init)
+		for a := 0; a < nat; a++ {
+			for _, to := range []int{2, -1, 1, 3} {
+				cf := cfgs()[ci]
+				if cf.init[a] == to {
+					continue
+				}
+				g := newC07gen(NewRNG(uint64(5000 + 100*ci + 10*a + to + 1)))
+				comp := g.use(cf.comp, 0, 0)
+				p := newC07prog()
+				p.initLv = append([]int(nil), cf.init...)
+				one := func(k, val string) c07fields {
+					f, x := g.str(k, val)
+					return c07fields{[]zapcore.Field{f}, []SX{x}}
+				}
+				logAll := func(nodes []int, lvs ...int) {
+					for _, lv := range lvs {
+						for _, n := range nodes {
+							var fs c07fields
+							if n%2 == 0 {
+								fs = one("c", "call")
+							}
+							p.ops = append(p.ops, &c07op{log: true, node: n, hasLv: true, lv: lv, msg: []byte("m"), fs: fs, w: p.w})
+						}
+					}
+				}
+				svc := g.derive(p, 0, stWith, one("svc", "api"), nil)
+				before := g.derive(p, svc, stWith, one("a", "1"), nil)
+				p.ops = append(p.ops, &c07op{set: true, atom: a, lv: to, w: p.w})
+				after := g.derive(p, svc, stWith, one("a", "2"), nil)
+				f1, x1 := g.ns("ns")
+				f2, x2 := g.str("b", "2")
+				grand := g.derive(p, g.derive(p, after, stNamed, c07fields{}, []byte("n")), stWith, c07fields{[]zapcore.Field{f1, f2}, []SX{x1, x2}}, nil)
+				sugar := g.derive(p, g.derive(p, svc, stSugar, c07fields{}, nil), stWith, one("s", "x"), nil)
+				lazy := g.derive(p, svc, stWithLazy, one("k", "3"), nil)
+				fld := g.derive(p, svc, stFields, one("f", "4"), nil)
+				deeper := g.derive(p, before, stWith, one("j", "5"), nil)
+				all := []int{0, svc, before, after, grand, sugar, lazy, fld, deeper}
+				logAll(all, 2, 1, 0)
+				p.ops = append(p.ops, &c07op{set: true, atom: a, lv: cf.init[a], w: p.w})
+				logAll(all, 2, 0, -1)
+				k1 := g.derive(p, after, stWith, one("late", "1"), nil)
+				k2 := g.derive(p, svc, stWith, one("late", "2"), nil)
+				logAll([]int{k1, k2, after, svc}, 2, 1)
+				g.emit(c, comp, p, "dirlvl")
+			}
+		}
+	}
+}
+
+// the seeded level classes
+func c07levels(c *Ctx, r *RNG) {
+	nLvl := 440
+	if c.Thorough {
+		nLvl = 15000
+	}
+	for i := 0; i < nLvl; i++ {
+		g := newC07gen(r.Fork())
+		rr := g.r
+		nAtoms := rr.Range(1, 3)
+		init := make([]int, nAtoms)
+		for a := range init {
+			init[a] = rr.Range(-1, 1)
+		}
+		var comp *c07comp
+		for tries := 0; ; tries++ {
+			comp = g.levelComp(3, nAtoms, init)
+			if tries > 20 || comp.hasKind(ckFilt) && comp.minLv(init) <= 2 {
+				break
+			}
+		}
+		if i%4 == 0 {
+			// the plainest shape: one filter directly over one leaf with an AtomicLevel
+			leaf := &c07comp{kind: []int{ckJSON, ckConsole, ckObs}[rr.Intn(3)], lref: &c07lref{atom: 0}}
+			f := &c07comp{kind: ckFilt, lref: &c07lref{atom: -1, lvl: init[0] + rr.Intn(2)}, kids: []*c07comp{leaf}}
+			if nAtoms > 1 && init[1] >= init[0] && rr.Bool() {
+				f.lref = &c07lref{atom: 1}
+			}
+			comp = f
+		}
+		g.use(comp, 4, 2)
+		var p *c07prog
+		class := "lvl"
+		switch x := rr.Intn(10); {
+		case x < 6:
+			p = g.levelProg(comp, init)
+		case x < 7:
+			p, class = g.relevelProg(comp, init, g.siblingProg()), "lvl-sib"
+		case x < 8:
+			p, class = g.relevelProg(comp, init, g.relogProg()), "lvl-relog"
+		default:
+			p, class = g.relevelProg(comp, init, g.randProg(12)), "lvl-rand"
+		}
+		g.emit(c, comp, p, class)
+	}
+}
+
 func c07(c *Ctx) {
 	c07directed(c)
 	c07directedFaults(c)
+	c07directedLevels(c)
 	r := NewRNG(c.Seed)
 	nSib, nRand, maxNodes := 600, 1200, 14
 	if c.Thorough {
@@ -1800,6 +2300,7 @@ func c07(c *Ctx) {
 		}
 		g.emitSlog(c, comp, name, ops)
 	}
+	c07levels(c, r)
 }
 
 func init() { registry["C07"] = c07 }
